@@ -189,6 +189,15 @@ def kept_full(case):
     return K
 
 
+def in_nh_class(case):
+    """domain of validity of the non-Hermitian similarity theorems (Props/C05, *_nh_partial): every
+    kept off-diagonal matrix element connects equal unperturbed energies"""
+    K = kept_full(case)
+    E = _energies(case)
+    n = len(E)
+    return not any(K[p][q] and p != q and E[p] != E[q] for p in range(n) for q in range(n))
+
+
 def _map_H(case, fn):
     return {k: gq.enc(fn(gen.unkey(k), gq.dec(M))) for k, M in case["H"].items()}
 
@@ -670,8 +679,9 @@ def _worker(args):
     rng = random.Random(seed)
     t = time.time()
     try:
-        for attempt in range(12):
+        for attempt in range(60 if kw.get("nh_class") else 12):
             bkw = dict(kw)
+            nh_class = bkw.pop("nh_class", False)
             # kw extras: "fmts" restricts the value formats, "N_sympy" caps the order of the (slow) exact SymPy family
             fmts = bkw.pop("fmts", None) or ["sympy", "sympy", "dense", "sparse"]
             nsym = bkw.pop("N_sympy", None)
@@ -695,6 +705,8 @@ def _worker(args):
             if nsym and fmt == "sympy":
                 for c in bases:
                     c["N"] = min(c["N"], nsym)
+            if nh_class and not all(in_nh_class(c) for c in bases):
+                continue
             P = draw_params(rel, bases, rng)
             if P is None:
                 continue
@@ -749,5 +761,6 @@ def sweep(ctx, relations, per_relation, kw, parallel=None):
                                 orders=sorted(r["bases"][0]["H"].keys())))
     return dict(evaluations=evaluations, nontrivial=len(nontrivial),
                 rule="relations %s on random exact problems (hermitian=%s, blocks<=%s, block size<=%s, params<=%s): base and transformed problem run through block_diagonalize, all elements of H_tilde, U, U† compared exactly up to total order %s; non-trivial = distinct (relation, parameters, base) with dim>=2 and a non-zero output at total order>=2"
-                % (",".join(relations), kw.get("hermitian"), kw.get("max_blocks", 3), kw.get("max_size", 3), kw.get("max_params", 2), kw.get("N", 3)),
+                % (",".join(relations), kw.get("hermitian"), kw.get("max_blocks", 3), kw.get("max_size", 3), kw.get("max_params", 2), kw.get("N", 3))
+                + ("; inputs restricted to the class where kept matrix elements connect equal unperturbed energies" if kw.get("nh_class") else ""),
                 samples=samples, failures=failures, distribution=dist)
